@@ -35,8 +35,17 @@ Definition Iltb (x y : I.type) : bool := Fltb (I.midpoint x) (I.midpoint y).
   nopp := I.neg;
   nleb := Ileb; nltb := Iltb; nofZ := I.fromZ prec |}.
 
+(* exp with a guard against astronomically small results: for x < -1400, exp x lies in
+   [0, 2^-2000] (exp(-1400) = 2^-2019.7...), which is returned as the enclosure; without the guard
+   a later `1 - exp x` would align mantissas over millions of bits *)
+Definition Iexp (x : I.type) : I.type :=
+  match F.cmp (I.upper x) (Fdy (-1400) 0) with
+  | Xlt => I.bnd F.zero (Fdy 1 (-2000))
+  | _ => I.exp prec x
+  end.
+
 #[export] Instance IvTNum : TNum I.type := {|
-  tnum := IvNum; nexp := I.exp prec; nln := I.ln prec; nsqrt := I.sqrt prec; npi := I.pi prec |}.
+  tnum := IvNum; nexp := Iexp; nln := I.ln prec; nsqrt := I.sqrt prec; npi := I.pi prec |}.
 
 (* printable form: [tag; m_lo; e_lo; m_hi; e_hi]  value bounds are m*2^e; tag 0 = finite,
    1 = NaN / unbounded *)
